@@ -451,8 +451,10 @@ func (v *VM) run() {
 				} else if highIdx > numElements {
 					highIdx = numElements
 				}
+				// copy: the resulting array is mutable and must not share
+				// storage with the immutable array
 				var val Object = &Array{
-					Value: left.Value[lowIdx:highIdx],
+					Value: append([]Object{}, left.Value[lowIdx:highIdx]...),
 				}
 				v.allocs--
 				if v.allocs == 0 {
